@@ -21,4 +21,8 @@ HomesAll2 == <<{1, 2}, {1, 2}>>
 HomesAll3 == <<{1, 2, 3}, {1, 2, 3}, {1, 2, 3}>>
 Homes2q   == <<{1}, {1, 2}>>
 Homes3r   == <<{1}, {2}, {3}>>
+Homes3p2l == <<{1, 2}, {3}>>          \* 3 partitions, 2 lifecyclers: l1 moves between p1 and p2, l2 sits on p3
+Homes2p3l == <<{1}, {1}, {2}>>        \* 2 partitions, 3 lifecyclers: two owners of p1, a third party on p2
+Cfg3p2l == << <<1, 0, 1>>, <<0, 1, 1>> >>
+Cfg2p3l == << <<2, 0, 1>>, <<2, 1, 1>>, <<1, 1, 1>> >>
 =============================================================================
